@@ -21,4 +21,4 @@ for d in sorted(os.listdir(base)):
 print()
 print("%d seeds, all confirmed valid (suite passes, demo passes on /repo and fails with the patch); first evaluation: %d caught; now: %d caught. "
       "(Column 'round 1' = the first evaluation of that seed: wave 1 (-1, -2) with the checks as they were when the seeds arrived, "
-      "wave 2 (-3, -4) after the generator gaps named above had been closed.)" % (n, c1, c2))
+      "wave 2 after the generator gaps named above had been closed, waves 3 and 4 with the checks untouched; wave numbers are in meta.json.)" % (n, c1, c2))
